@@ -7,10 +7,10 @@ for id in $ids; do
   d=/verif/seeded/$id; [ -f $d/meta.json ] || continue
   checks=$(python3 -c "import json; m=json.load(open('$d/meta.json')); print(' '.join(m['detected_by_checks'] or [m['breaks_property']]))")
   ( cd /repo && git diff --quiet ) || { echo "/repo dirty"; exit 2; }
-  ( cd /repo && { git apply $d/patch.diff 2>/dev/null || git apply --3way $d/patch.diff >/dev/null 2>&1 && git reset -q; } ) || { echo "$id: patch does not apply"; ( cd /repo && git reset -q --hard HEAD ); continue; }
+  ( cd /repo && { git apply $d/patch.diff 2>/dev/null || { git apply --3way $d/patch.diff >/dev/null 2>&1 && git reset -q && ! grep -rq '<<<<<<<' src; }; } ) || { echo "$id: patch does not apply"; ( cd /repo && git reset -q --hard HEAD ); continue; }
   : > $d/detection.log
   for c in $checks; do
-    out=$(./check $c --tier quick 2>&1 | tr -d '\000'); rc=$?
+    out=$(./check $c --tier quick 2>&1); rc=$?; out=$(echo "$out" | tr -d '\000')
     n=$(echo "$out" | grep -c '^VIOLATION')
     echo "check $c on /repo + $id: exit $rc, $n VIOLATION lines" | tee -a $d/detection.log
     echo "$out" | grep -a -E 'violation \[' | cut -c1-400 | head -3 >> $d/detection.log
